@@ -470,7 +470,17 @@ noncomputable def naiveTransform (pupil : Grid ι d) (uv : Grid κ d) : FourierT
                intro a x; funext k
                simp only [fourierSum, Pi.smul_apply, smul_eq_mul, RingHom.id_apply, Finset.mul_sum]
                apply Finset.sum_congr rfl; intro j _; ring }
-    bwd := 0 }
+    bwd := { toFun := fun G j => (((2 * Real.pi) ^ d : ℝ) : ℂ)⁻¹ *
+                ∑ k, G k * (uv.weights k : ℂ) * cexp (I * ((dot (uv.pts k) (pupil.pts j) : ℝ) : ℂ))
+             map_add' := by
+               intro x y; funext j
+               simp only [Pi.add_apply, ← mul_add, ← Finset.sum_add_distrib]
+               congr 1
+               apply Finset.sum_congr rfl; intro k _; ring
+             map_smul' := by
+               intro a x; funext j
+               simp only [Pi.smul_apply, smul_eq_mul, RingHom.id_apply, Finset.mul_sum]
+               apply Finset.sum_congr rfl; intro k _; ring } }
 
 /-- What `make_fourier_transform` does for a lens: the FFT (model) at the wavelength for which the focal grid
 is FFT-native, the defining sum at every other wavelength. -/
@@ -517,6 +527,97 @@ theorem fraunhofer_eq_integral_auto (gy gx : Cfg ℝ ℂ) (oky : AxisOK gy) (okx
                 / ((wf.wavelength : ℂ) * (f : ℂ))) :=
   fraunhofer_eq_integral (autoPropagator gy gx oky okx hemu f lam0)
     (autoPropagator_transformsCorrect gy gx oky okx hemu f lam0 hpos) wf t k
+
+/-- `EvaluatesAdjointSum` for the propagator of `make_fourier_transform`'s choices, every wavelength:
+FFT branch by C01/C02 (`fft2_adjoint`), defining-sum branch by definition. -/
+theorem autoPropagator_adjointCorrect (gy gx : Cfg ℝ ℂ) (oky : AxisOK gy) (okx : AxisOK gx)
+    (hemu : gy.emu = gx.emu) (f lam0 : ℝ) (hpos : 0 < lam0 * f) (lam : ℝ) :
+    EvaluatesAdjointSum ((autoPropagator gy gx oky okx hemu f lam0).ft lam)
+      (autoPropagator gy gx oky okx hemu f lam0).pupil ((autoPropagator gy gx oky okx hemu f lam0).uvGrid lam) := by
+  by_cases h : lam = lam0
+  · subst h
+    have hu : (autoPropagator gy gx oky okx hemu f lam).uvGrid lam = uvGrid2 gy gx :=
+      fftPropagator_uvGrid gy gx oky okx hemu f lam hpos
+    rw [hu]
+    have hft : (autoPropagator gy gx oky okx hemu f lam).ft lam = fftTransform2 gy gx oky okx hemu := by
+      unfold autoPropagator; simp
+    rw [hft]
+    exact fft2_adjoint gy gx oky okx hemu
+  · have hft : (autoPropagator gy gx oky okx hemu f lam0).ft lam
+        = naiveTransform (pupilGrid2 gy gx) (((uvGrid2 gy gx).scaled (uvScaleR lam0 f)⁻¹).scaled (uvScaleR lam f)) := by
+      unfold autoPropagator; simp [h]
+    rw [hft]
+    intro G j
+    rfl
+
+/-- **`fraunhofer_backward_eq_adjoint_integral` for the FFT model**: on every consistent FFT grid
+(cropped or not, either shift setting) `backward` is the adjoint Fourier integral
+`i/(λf)·Σ_x E(x) w_focal(x) exp(+2πi x·u/(λf))`. -/
+theorem fraunhofer_backward_eq_adjoint_integral_fft (gy gx : Cfg ℝ ℂ) (oky : AxisOK gy) (okx : AxisOK gx)
+    (hemu : gy.emu = gx.emu) (f lam0 : ℝ) (hpos : 0 < lam0 * f)
+    (wg : Wavefront (Fin gy.Mo × Fin gx.Mo) τ) (hwl : wg.wavelength = lam0) (t : τ) (j : Fin gy.N × Fin gx.N) :
+    ((fftPropagator gy gx oky okx hemu f lam0).backward wg).field t j
+      = I / ((lam0 : ℂ) * (f : ℂ))
+        * ∑ k, wg.field t k * ((fftPropagator gy gx oky okx hemu f lam0).focal.weights k : ℂ)
+            * cexp (2 * (Real.pi : ℂ) * I
+                * ((dot ((fftPropagator gy gx oky okx hemu f lam0).focal.pts k) ((pupilGrid2 gy gx).pts j) : ℝ) : ℂ)
+                / ((lam0 : ℂ) * (f : ℂ))) := by
+  have hA : EvaluatesAdjointSum ((fftPropagator gy gx oky okx hemu f lam0).ft wg.wavelength)
+      (fftPropagator gy gx oky okx hemu f lam0).pupil
+      ((fftPropagator gy gx oky okx hemu f lam0).uvGrid wg.wavelength) := by
+    rw [hwl, fftPropagator_uvGrid gy gx oky okx hemu f lam0 hpos]
+    exact fft2_adjoint gy gx oky okx hemu
+  have h := fraunhofer_backward_eq_adjoint_integral (fftPropagator gy gx oky okx hemu f lam0) wg
+    (by rw [hwl]; exact hpos) hA t j
+  rw [hwl] at h
+  exact h
+
+/-- … and with no hypothesis about the transform at all: every wavelength with `λ f > 0`. -/
+theorem fraunhofer_backward_eq_adjoint_integral_auto (gy gx : Cfg ℝ ℂ) (oky : AxisOK gy) (okx : AxisOK gx)
+    (hemu : gy.emu = gx.emu) (f lam0 : ℝ) (hpos : 0 < lam0 * f)
+    (wg : Wavefront (Fin gy.Mo × Fin gx.Mo) τ) (hwpos : 0 < wg.wavelength * f) (t : τ) (j : Fin gy.N × Fin gx.N) :
+    ((autoPropagator gy gx oky okx hemu f lam0).backward wg).field t j
+      = I / ((wg.wavelength : ℂ) * (f : ℂ))
+        * ∑ k, wg.field t k * ((autoPropagator gy gx oky okx hemu f lam0).focal.weights k : ℂ)
+            * cexp (2 * (Real.pi : ℂ) * I
+                * ((dot ((autoPropagator gy gx oky okx hemu f lam0).focal.pts k) ((pupilGrid2 gy gx).pts j) : ℝ) : ℂ)
+                / ((wg.wavelength : ℂ) * (f : ℂ))) :=
+  fraunhofer_backward_eq_adjoint_integral (autoPropagator gy gx oky okx hemu f lam0) wg hwpos
+    (autoPropagator_adjointCorrect gy gx oky okx hemu f lam0 hpos wg.wavelength) t j
+
+/-- Assigning a new (constant) focal length `f₂` to the propagator and rebuilding its transforms gives the
+propagator of the new focal length: the focal grid is then FFT-native at `λ₀ f / f₂`. -/
+theorem autoPropagator_setFocalLength (gy gx : Cfg ℝ ℂ) (oky : AxisOK gy) (okx : AxisOK gx)
+    (hemu : gy.emu = gx.emu) (f lam0 f2 : ℝ) (hf2 : f2 ≠ 0) :
+    (autoPropagator gy gx oky okx hemu f lam0).setFocalLength (fun _ => f2)
+        (autoPropagator gy gx oky okx hemu f2 (lam0 * f / f2)).ft
+      = autoPropagator gy gx oky okx hemu f2 (lam0 * f / f2) := by
+  have hs : uvScaleR (lam0 * f / f2) f2 = uvScaleR lam0 f := by
+    unfold uvScaleR
+    congr 1
+    field_simp
+  unfold Propagator.setFocalLength autoPropagator
+  simp only [hs]
+
+/-- **`fraunhofer_eq_integral_after_set` with no hypothesis left**: after `focal_length = f₂` the forward
+propagation is the Fourier integral for `f₂`, at every wavelength. -/
+theorem fraunhofer_eq_integral_after_set_auto (gy gx : Cfg ℝ ℂ) (oky : AxisOK gy) (okx : AxisOK gx)
+    (hemu : gy.emu = gx.emu) (f lam0 f2 : ℝ) (hpos : 0 < lam0 * f) (hf2 : f2 ≠ 0)
+    (wf : Wavefront (Fin gy.N × Fin gx.N) τ) (t : τ) (k : Fin gy.Mo × Fin gx.Mo) :
+    (((autoPropagator gy gx oky okx hemu f lam0).setFocalLength (fun _ => f2)
+        (autoPropagator gy gx oky okx hemu f2 (lam0 * f / f2)).ft).forward wf).field t k
+      = 1 / (I * (wf.wavelength : ℂ) * (f2 : ℂ))
+        * ∑ j, wf.field t j * ((pupilGrid2 gy gx).weights j : ℂ)
+            * cexp (-(2 * (Real.pi : ℂ) * I
+                * ((dot ((autoPropagator gy gx oky okx hemu f lam0).focal.pts k) ((pupilGrid2 gy gx).pts j) : ℝ) : ℂ))
+                / ((wf.wavelength : ℂ) * (f2 : ℂ))) := by
+  have hT : ((autoPropagator gy gx oky okx hemu f lam0).setFocalLength (fun _ => f2)
+      (autoPropagator gy gx oky okx hemu f2 (lam0 * f / f2)).ft).TransformsCorrect := by
+    rw [autoPropagator_setFocalLength gy gx oky okx hemu f lam0 f2 hf2]
+    apply autoPropagator_transformsCorrect
+    have : lam0 * f / f2 * f2 = lam0 * f := by field_simp
+    rw [this]; exact hpos
+  exact fraunhofer_eq_integral_after_set (autoPropagator gy gx oky okx hemu f lam0) (fun _ => f2) _ hT wf t k
 
 /-- Non-vacuity: a consistent full pair exists (`N = 2`, `M = Mo = 4`, `δ = 1/2`, `dT = 1/2` on both axes). -/
 example : ∃ g : Cfg ℝ ℂ, AxisOK g ∧ g.Mo = g.M :=
